@@ -367,7 +367,7 @@ func perms(multiset []int) [][]int {
 }
 
 func runC11(w *W) {
-	for _, ann := range []string{"", "v", "p", "q", "g"} {
+	for _, ann := range []string{"", "v", "p", "q", "g", "px"} {
 		for _, od := range []bool{false, true} {
 			for _, cost := range []string{"absent", "equal", "different"} {
 				for _, al := range []bool{false, true} {
@@ -429,7 +429,7 @@ func init() {
 		ID:        "C11",
 		Level:     "model_checking",
 		Technique: "exhaustive enumeration of the handshake/announcement product with scripted peers against a reference admission predicate, every delivery order of simultaneous sessions, and deviation-bounded DFS over delivery schedules for same-ID twins; real Netceptor nodes in a synctest bubble",
-		Rule: "admission: announced ID {empty, local, allowed, not allowed, already connected} x origin field {same, different} x cost listed for us {absent, equal, different} x allow-list {none, set} x per-node cost override {none, set} x later behaviour {none, other forwarder, stops listing us, cost change, reject message, session end} (all 720); " +
+		Rule: "admission: announced ID {empty, local, allowed, not allowed, extension of an allowed ID, already connected} x origin field {same, different} x cost listed for us {absent, equal, different} x allow-list {none, set} x per-node cost override {none, set} x later behaviour {none, other forwarder, stops listing us, cost change, reject message, session end} (all 864); " +
 			"simultaneous sessions: 2 and 3 sessions with equal/different IDs, every interleaving of their hello and first update (all multiset permutations); twins: later-started node with the ID of a, b or c attached at every other position of a 3-chain and a triangle, all delivery schedules with <=1 (thorough 2) deviations. Every case is distinct and non-trivial.",
 		Assumptions: []string{"handshake interleavings are explored at macro-step granularity (deliveries), not inside one handler", "twin start times differ by >= 1 virtual second"},
 		Run:         runC11,
